@@ -31,6 +31,26 @@ def fn_sig(crate, fid):
     return "sig:%s(%s)->%s" % (prefix, ",".join(f.local_ty(i) for i in range(1, f.argc + 1)), ret)
 
 
+DBT = "fixtures::FixtureDatabase"
+
+
+def field_aliases(crate):
+    """field name of the database struct -> `fld:<type>#<ordinal among the fields of that type>`"""
+    memo = getattr(crate, "_field_aliases", None)
+    if memo is not None:
+        return memo
+    out = {}
+    adt = crate.adts.get(DBT)
+    if adt:
+        seen = {}
+        for f in adt["variants"][0]["fields"]:
+            n = seen.get(f["ty"], 0)
+            seen[f["ty"]] = n + 1
+            out[f["name"]] = "fld:%s#%d" % (f["ty"], n)
+    crate._field_aliases = out
+    return out
+
+
 def _pieces(key):
     out = []
     for seg in _norm(key).split("|"):
@@ -42,6 +62,7 @@ def sigkey(crate, key):
     """the key with every function id replaced by its signature; None when the key names no function of the crate"""
     hit = False
     segs = []
+    fa = field_aliases(crate)
     for parts in _pieces(key):
         ps = []
         for p in parts:
@@ -49,6 +70,12 @@ def sigkey(crate, key):
             if sg is not None:
                 hit = True
                 ps.append(sg)
+                continue
+            # `<map>` or `<map>.<method>` segments
+            head, dot, rest = p.partition(".")
+            if head in fa:
+                hit = True
+                ps.append(fa[head] + dot + rest)
             else:
                 ps.append(p)
         segs.append("+".join(ps))
@@ -57,11 +84,22 @@ def sigkey(crate, key):
 
 def named_fns_present(crate, key):
     """does some function named by the key still exist in the analysed tree?"""
+    fa = field_aliases(crate)
+    named = 0
+    present = 0
     for parts in _pieces(key):
         for p in parts:
-            if ("::" in p or p in crate.fns) and p in crate.fns:
-                return True
-    return False
+            if "::" in p and not p.startswith(("`", "(")):
+                if re.match(r"^[\w<>:, &\[\]{}#']+$", p) and ("<impl" in p or p.count("::") >= 1):
+                    named += 1
+                    present += 1 if p in crate.fns else 0
+            else:
+                head = p.partition(".")[0]
+                if head in fa:
+                    named += 1
+                    present += 1
+    # every function / field the key names must still exist for the entry to be "in place"
+    return named > 0 and present == named
 
 
 def alias_match(crate, key, entries, table):
